@@ -18,7 +18,7 @@ fn strip(src: &str) -> String {
 }
 
 fn main() {
-    let repo = env::var("VP_REPO").unwrap_or_else(|_| "/scratch/c22/repo".into());
+    let repo = env::var("VP_REPO").unwrap_or_else(|_| "/repo".into());
     let dir = PathBuf::from(&repo).join("oxidize-pdf-core/src/batch");
     println!("cargo:rerun-if-env-changed=VP_REPO");
     let rd = |n: &str| {
